@@ -76,9 +76,19 @@ def fresh_locals(fn, classes):
                         if isinstance(e, ast.Name):
                             binds.setdefault(e.id, []).append(None)
         elif isinstance(n, (ast.For, ast.comprehension)):
+            # `for k, v in C.items()` / `for v in C.values()` / `for v in C`: v is an element of C (see fresh_elem)
+            it, elem_t = n.iter, None
+            if isinstance(it, ast.Call) and isinstance(it.func, ast.Attribute) and isinstance(it.func.value, ast.Name) and not it.args:
+                if it.func.attr == "items" and isinstance(n.target, ast.Tuple) and len(n.target.elts) == 2:
+                    elem_t, it = n.target.elts[1], it.func.value
+                elif it.func.attr == "values":
+                    elem_t, it = n.target, it.func.value
+            elif isinstance(it, ast.Name):
+                elem_t = n.target
             for e in ast.walk(n.target):
                 if isinstance(e, ast.Name):
-                    binds.setdefault(e.id, []).append(None)
+                    binds.setdefault(e.id, []).append(ast.Subscript(value=it, slice=ast.Constant(value=0), ctx=ast.Load())
+                                                      if e is elem_t and isinstance(it, ast.Name) else None)
         elif isinstance(n, ast.With):
             for it in n.items:
                 if it.optional_vars is not None:
@@ -89,6 +99,32 @@ def fresh_locals(fn, classes):
             binds.setdefault(n.target.id, []).append(n.value)
         elif isinstance(n, ast.AugAssign) and isinstance(n.target, ast.Name):
             pass
+    # containers created empty in fn and everything put into them: an element read back from such a container is as new as what went in
+    held: dict[str, list] = {}
+    for n in ast.walk(fn):
+        if isinstance(n, ast.Assign):
+            for t in n.targets:
+                if isinstance(t, ast.Subscript) and isinstance(t.value, ast.Name):
+                    held.setdefault(t.value.id, []).append(n.value)
+        elif isinstance(n, ast.Call) and isinstance(n.func, ast.Attribute) and isinstance(n.func.value, ast.Name) \
+                and n.func.attr in ("append", "add", "insert", "setdefault", "extend", "update") and n.args:
+            held.setdefault(n.func.value.id, []).append(n.args[-1] if n.func.attr not in ("extend", "update") else None)
+
+    def empty_container(v):
+        return (isinstance(v, (ast.Dict, ast.List, ast.Set)) and not (v.keys if isinstance(v, ast.Dict) else v.elts)) or \
+               (isinstance(v, ast.Call) and isinstance(v.func, ast.Name) and v.func.id in ("dict", "list", "set") and not v.args and not v.keywords)
+
+    def fresh_elem(v, fresh):
+        """C[k] / C.setdefault(k, new) / C.get(k) with C a container created empty here that only ever received new values"""
+        c = None
+        if isinstance(v, ast.Subscript) and isinstance(v.value, ast.Name):
+            c = v.value.id
+        elif isinstance(v, ast.Call) and isinstance(v.func, ast.Attribute) and isinstance(v.func.value, ast.Name) and v.func.attr in ("setdefault", "get", "pop"):
+            c = v.func.value.id
+        if c is None or c in params or not binds.get(c) or not all(b is not None and empty_container(b) for b in binds[c]):
+            return False
+        return all(h is not None and is_fresh_expr(h, fresh, classes) for h in held.get(c, []))
+
     fresh = set()
     changed = True
     while changed:
@@ -96,7 +132,7 @@ def fresh_locals(fn, classes):
         for k, vs in binds.items():
             if k in fresh or k in params:
                 continue
-            if all(v is not None and is_fresh_expr(v, fresh, classes) for v in vs):
+            if all(v is not None and (is_fresh_expr(v, fresh, classes) or fresh_elem(v, fresh)) for v in vs):
                 fresh.add(k)
                 changed = True
     return fresh
